@@ -211,6 +211,26 @@ func runCase(rt *rapid.T, s *sim.Scenario, unit string, prefix int) {
 			known = append(known, mut.Hash())
 			desc := fmt.Sprintf("X = %s; mutations: %v; re-signed: %s", s.DescribeBlock(x, offered), notes, resign)
 
+			// what an honest execution of the mutant's own header choices and transaction list gives, computed on the validator BEFORE
+			// it sees the mutant (the factory cannot serve: it has stored X, and where X is stable at once - a term with one deputy -
+			// it can no longer assemble on X's parent)
+			var honest *types.Block
+			var honestErr error
+			attempted := false
+			if pp, ok := blocks[mut.ParentHash()]; ok && (pp.Height() > s.V.Stable().Height() || pp.Hash() == s.V.Stable().Hash()) && mut.Height() == pp.Height()+1 && mut.Time() >= pp.Time() && len(mut.Header.SignData) == 65 {
+				hh := mut.Hash()
+				if pub, err := crypto.Ecrecover(hh[:], mut.Header.SignData); err == nil {
+					for _, dd := range s.W.AllDeputies() {
+						if string(dd.NodeID) == string(pub[1:]) {
+							hdr := &types.Header{ParentHash: mut.ParentHash(), MinerAddress: mut.MinerAddress(), Height: mut.Height(), GasLimit: mut.GasLimit(), Time: mut.Time(), Extra: mut.Extra(), DeputyRoot: mut.DeputyRoot()}
+							honest, _, honestErr = s.V.Assemble(dd, hdr, mut.Txs)
+							attempted = true
+							s.V.Self = nil
+							s.V.BecomeSelf()
+						}
+					}
+				}
+			}
 			before := take(s, known)
 			errIns := s.V.Insert(mut)
 			accepted := errIns == nil && s.V.BC.HasBlock(mut.Hash())
@@ -292,10 +312,13 @@ func runCase(rt *rapid.T, s *sim.Scenario, unit string, prefix int) {
 				}
 				// an honest execution of (parent, the miner's header choices, the transaction list) gives exactly this block
 				// (the deputy root outside snapshot heights is not constrained by the statement: it counts as one of the miner's choices; at snapshot heights sealing overwrites it)
-				hdr := &types.Header{ParentHash: mut.ParentHash(), MinerAddress: mut.MinerAddress(), Height: mut.Height(), GasLimit: mut.GasLimit(), Time: mut.Time(), Extra: mut.Extra(), DeputyRoot: mut.DeputyRoot()}
-				honest, _, err := s.F.Assemble(signer, hdr, mut.Txs)
-				if err != nil || honest.Hash() != mut.Hash() {
-					rt.Fatalf("accepted a block which an honest execution of its own header choices and transactions does not reproduce (%v): accepted %s, honest %s\n%s", err, mut.Hash().Hex()[:10], hashOf(honest), desc)
+				err = honestErr
+				if attempted && (err != nil || honest.Hash() != mut.Hash()) {
+					hd := ""
+					if honest != nil {
+						hd = fmt.Sprintf("\naccepted header: %+v\nhonest header:   %+v\naccepted txs %d, honest txs %d", *mut.Header, *honest.Header, len(mut.Txs), len(honest.Txs))
+					}
+					rt.Fatalf("accepted a block which an honest execution of its own header choices and transactions does not reproduce (%v): accepted %s, honest %s\n%s%s", err, mut.Hash().Hex()[:10], hashOf(honest), desc, hd)
 				}
 			}
 			if !accepted && errIns != nil {
